@@ -118,6 +118,10 @@ class FakeReactor(object):
     return None
 
 
+class Undecodable(Exception):
+  pass
+
+
 def decode_pickle_stream(buf):
   out = []
   o = 0
@@ -125,7 +129,10 @@ def decode_pickle_stream(buf):
     (n,) = struct.unpack('!I', buf[o:o + 4])
     if o + 4 + n > len(buf):
       break
-    out.append([(m, ts, v) for m, (ts, v) in pickle.loads(buf[o + 4:o + 4 + n])])
+    try:
+      out.append([(m, ts, v) for m, (ts, v) in pickle.loads(buf[o + 4:o + 4 + n])])
+    except Exception as e:   # noqa - a message no independent decoder can read (a fresh unpickler per frame, as the listener uses)
+      raise Undecodable('pickle message %r cannot be decoded on its own: %r' % (buf[o + 4:o + 4 + min(n, 60)], e))
     o += 4 + n
   return out, buf[o:]
 
@@ -134,8 +141,11 @@ def decode_line_stream(buf):
   out = []
   while b'\n' in buf:
     line, buf = buf.split(b'\n', 1)
-    m, v, ts = line.decode('utf-8').rstrip('\r').split(' ')
-    out.append([(m, float(ts), float(v))])
+    try:
+      m, v, ts = line.decode('utf-8').rstrip('\r').split(' ')
+      out.append([(m, float(ts), float(v))])
+    except Exception as e:   # noqa
+      raise Undecodable('line %r cannot be decoded: %r' % (line[:80], e))
   return out, buf
 
 
@@ -224,6 +234,7 @@ class Relay(evx.System):
     self.events = events
     self.state = state
     self.lose_after_stop = []
+    self.pending_violation = None
     self.stopped = False
     self.stop_exc = None
     self.root = MultiService()
@@ -244,6 +255,7 @@ class Relay(evx.System):
     self.receivers = []
     self.rx_pool = 0
     self.badstats = False
+    self.applied = []
 
   def close(self):
     if getattr(self, 'saved', None):
@@ -253,7 +265,18 @@ class Relay(evx.System):
       self.saved = None
 
   def on_lose_connection(self, dest):
-    pass
+    # An orderly stop (the factory has given up reconnecting) asks for the close: everything queued must have
+    # been handed to the transport BEFORE that request.  (A close requested by the connection-quality monitor
+    # is different: the factory keeps trying and nothing is lost.)
+    f = self.factory(dest)
+    if self.stopped and f is not None and not f.continueTrying:
+      t = self.transport(dest)
+      v = self.flush_written(dest) if t is not None else None
+      if v:
+        self.pending_violation = v
+      elif self.q.get(dest):
+        self.pending_violation = ('closed-before-flush', 'after stop loseConnection() was called on %r with %r not yet written' % (
+          dest, self.q[dest]))
 
   # ---- helpers --------------------------------------------------------------------------------------------
   def factory(self, d):
@@ -353,6 +376,7 @@ class Relay(evx.System):
   def apply(self, ev):
     from twisted.python.failure import Failure
     from twisted.internet import error
+    self.applied.append(ev)
     self.n += 1
     k = self.n
     kind = ev[0]
@@ -457,7 +481,10 @@ class Relay(evx.System):
     del t.written[:]
     self.buf[d] += data
     dec = decode_pickle_stream if self.p.get('protocol', 'pickle') == 'pickle' else decode_line_stream
-    msgs, self.buf[d] = dec(self.buf[d])
+    try:
+      msgs, self.buf[d] = dec(self.buf[d])
+    except Undecodable as e:
+      return ('undecodable-message', 'destination %r was sent something the receiving side cannot decode: %s' % (d, e))
     for msg in msgs:
       if len(msg) > self.p['batch']:
         return ('batch-too-large', 'a message of %d datapoints was sent to %r (MAX_DATAPOINTS_PER_MESSAGE=%d)' % (len(msg), d, self.p['batch']))
@@ -471,6 +498,8 @@ class Relay(evx.System):
     return None
 
   def compare(self):
+    if self.pending_violation:
+      return self.pending_violation
     for d in self.dests:
       v = self.flush_written(d)
       if v:
@@ -542,8 +571,19 @@ class Relay(evx.System):
     return None
 
   # ---- quiescence (C09) ---------------------------------------------------------------------------------------------
-  def quiesce(self):
-    """Let the environment be kind: resume paused transports, complete pending connects, fire timers."""
+  def quiesce(self, down=()):
+    """Let the environment be kind: resume paused transports, complete pending connects, fire timers.
+    Destinations in `down` are unreachable from now on: their connection is lost, their connection attempts are
+    refused a few times and then simply never answered."""
+    refused = {}
+    for i, d in enumerate(self.dests):
+      if d in down:
+        c = self.connector(d)
+        if c is not None and c.state == 'connected':
+          t = c.transport
+          v = self.apply(('closed', i) if t.closing else ('conn_lost', i))
+          if v:
+            return v
     if self.badstats:
       v = self.apply(('goodstats',))
       if v:
@@ -555,7 +595,13 @@ class Relay(evx.System):
         if c is None:
           continue
         t = getattr(c, 'transport', None)
-        if c.state == 'connecting':
+        if c.state == 'connecting' and d in down:
+          if refused.get(d, 0) > self.p.get('max_retries', 1) + 1:
+            continue          # the attempt hangs
+          refused[d] = refused.get(d, 0) + 1
+          v = self.apply(('conn_fail', i))
+          progressed = True
+        elif c.state == 'connecting':
           v = self.apply(('conn_ok', i))
           progressed = True
         elif c.state == 'connected' and t is not None and t.closing:
